@@ -148,6 +148,7 @@ func c04Lend(a []string) string {
 	// the hosting client: collects requests, answers them in batches, the last one first
 	var smu sync.Mutex
 	seen := map[string]int{}
+	posted := map[string]int{}
 	stop := make(chan struct{})
 	hostDone := make(chan struct{})
 	go func() {
@@ -167,12 +168,23 @@ func c04Lend(a []string) string {
 				if !ok {
 					return
 				}
-				if m.Header.Type != qnet.Call || m.Header.Object != remoteID {
+				if m.Header.Object != remoteID {
 					continue
 				}
-				smu.Lock()
-				seen[string(m.Payload)]++
-				smu.Unlock()
+				if m.Header.Type == qnet.Post || strings.HasPrefix(string(m.Payload), "post-") {
+					smu.Lock()
+					posted[string(m.Payload)]++
+					smu.Unlock()
+					if m.Header.Type != qnet.Call {
+						continue
+					}
+				} else if m.Header.Type != qnet.Call {
+					continue
+				} else {
+					smu.Lock()
+					seen[string(m.Payload)]++
+					smu.Unlock()
+				}
 				pending = append(pending, m)
 				if len(pending) >= B {
 					flush()
@@ -214,6 +226,49 @@ func c04Lend(a []string) string {
 			case <-time.After(4 * time.Second):
 				return fmt.Sprintf("fail:unanswered: the call of %q (message id 40 on its own connection) got no answer", args[i])
 			}
+		}
+	}
+	// a post to the lent object reaches the hosting client once, and the poster receives nothing for it
+	{
+		rc, err := lendDial(addr)
+		if err != nil {
+			return "setup-error:" + err.Error()
+		}
+		defer rc.conn.Close()
+		rc.send(qnet.NewHeader(qnet.Post, sid, oid, 200, 41), []byte("post-A"))
+		// a call behind it on the same connection: its answer bounds the wait
+		rc.send(qnet.NewHeader(qnet.Call, sid, oid, 200, 42), []byte("raw-C"))
+		extra++
+		deadline := time.After(4 * time.Second)
+		answered := false
+		for !answered {
+			select {
+			case m, ok := <-rc.in:
+				if !ok {
+					return "fail:unanswered: the connection of a caller was closed"
+				}
+				if m.Header.ID == 41 {
+					return fmt.Sprintf("fail:post-answered: the sender of a post to a lent object received a message of type %d for it", m.Header.Type)
+				}
+				if m.Header.ID == 42 {
+					answered = true
+				}
+			case <-deadline:
+				return "fail:unanswered: the call behind a post to a lent object got no answer"
+			}
+		}
+		select {
+		case m, ok := <-rc.in:
+			if ok && m.Header.ID == 41 {
+				return fmt.Sprintf("fail:post-answered: the sender of a post to a lent object received a message of type %d for it", m.Header.Type)
+			}
+		case <-time.After(150 * time.Millisecond):
+		}
+		smu.Lock()
+		n := posted["post-A"]
+		smu.Unlock()
+		if n != 1 {
+			return fmt.Sprintf("fail:post-count: the hosting client saw the post %d times", n)
 		}
 	}
 	clients := make([]bus.Client, C)
